@@ -54,7 +54,7 @@ ASSUMPTIONS = [
     'a handler only uses the public request/response API of its own application plus the listed foreign operations',
 ]
 
-OPS = ['nest', 'nest', 'copy', 'copy_mutate', 'new_request', 'new_response', 'new_app', 'new_app_serve']
+OPS = ['nest', 'nest', 'copy', 'copy_mutate', 'new_request', 'new_response', 'new_app', 'new_app_serve', 'new_app_custom_errors']
 STATUS_CHOICES = [200, 201, 202, 203, 206, 299]
 
 _TL = threading.local()      # harness-side per-thread call stack and findings
@@ -90,13 +90,13 @@ def set_ctx(ctx):
 def expected_reads(call):
     m = call['m']
     return {
-        'path': '/r/' + m,
+        'path': path_of(call),
         'method': 'POST' if call.get('bad') else 'GET',
         'query_m': 'q' + m,
         'query_string': 'm=q' + m,
         'hdr': 'h' + m,
         'cookie': 'c' + m,
-        'url_arg': m,
+        'url_arg': None if call.get('static') else m,
     }
 
 
@@ -163,8 +163,14 @@ def check_response(ctx, call, app, when):
             return
 
 
+def path_of(call):
+    return '/s' if call.get('static') else '/r/' + call['m']
+
+
 def environ_for(call):
     m = call['m']
+    if call.get('static'):
+        return make_environ('GET', '/s', 'm=q' + m, {'X-M': 'h' + m, 'Cookie': 'c=c' + m})
     if call.get('bad'):
         # malformed chunked body: reading it raises the process-wide errors_map response (400)
         import io
@@ -234,7 +240,7 @@ def do_op(ctx, call, op, app, env):
         serve(ctx, op[1])
     elif kind == 'copy':
         cp = app.request.copy()
-        if cp.path != '/r/' + call['m'] or cp.query.get('m') != 'q' + call['m']:
+        if cp.path != path_of(call) or cp.query.get('m') != 'q' + call['m']:
             ctx.problem('C10:copy-wrong', f'request {call["m"]}: copy shows path {cp.path!r}')
     elif kind == 'copy_mutate':
         cp = app.request.copy()
@@ -258,6 +264,11 @@ def do_op(ctx, call, op, app, env):
             ctx.problem('C10:copy-wrong', f'bare Response shows status {rs.status_code!r}')
     elif kind == 'new_app':
         ombott.Ombott()
+    elif kind == 'new_app_custom_errors':
+        # a further application with its own error mapping: must not change how the others answer a bad body
+        from ombott.request_pkg import errors as rq_errors
+        ombott.Ombott({'errors_map': {rq_errors.RequestError: ombott.HTTPError(422, 'custom mapping'),
+                                      rq_errors.BodyParsingError: ombott.HTTPError(422, 'custom mapping')}})
     elif kind == 'new_app_serve':
         extra = ombott.Ombott()
         install(ctx, extra, len(ctx.apps))
@@ -270,12 +281,27 @@ def do_op(ctx, call, op, app, env):
 
 
 def make_handler(ctx, app):
-    def handler(m):
+    def handler(m=None, **unexpected):
         st = _stack()
         if not st:
             ctx.problem('C10:harness', 'handler entered without a harness stack entry')
             return 'x'
         call, env = st[-1]
+        if call.get('static'):
+            # a route without parameters: no URL arguments exist for this request
+            try:
+                ua = dict(app.request.url_args)
+            except Exception as e:   # noqa
+                ua = {'<error>': repr(e)}
+            if m is not None or unexpected or ua:
+                ctx.problem('C10:foreign-request-visible',
+                            f'request {call["m"]} (app {call["app"]}, static route) was given URL arguments '
+                            f'{dict(unexpected, **({"m": m} if m is not None else {}))} / url_args {ua}')
+            m = call['m']
+            try:
+                app.request.url_args['who'] = call['m']     # e.g. a value passed on for later stages of this request
+            except Exception as e:   # noqa
+                ctx.problem('C10:request-read-error', f'{call["m"]}: writing request.url_args raised {type(e).__name__}: {e}')
         if ctx.apps[call['app']] is not app:
             ctx.problem('C10:wrong-app-entered', f'request {call["m"]} for app {call["app"]} entered another application\'s handler')
         if m != call['m']:
@@ -339,7 +365,9 @@ def check_reads_bad(ctx, call, app, env):
 
 
 def install(ctx, app, idx):
-    app.add_route('/r/<m>', ['GET', 'POST'], make_handler(ctx, app), overwrite=True)
+    h = make_handler(ctx, app)
+    app.add_route('/r/<m>', ['GET', 'POST'], h, overwrite=True)
+    app.add_route('/s', ['GET'], h, overwrite=True)
     app.error(400)(make_error_handler(ctx, app))
     if not getattr(app, '_sim_hooks', False):
         # once per application object (the default application outlives the run); the hooks find the
@@ -400,6 +428,8 @@ def gen_call(rng, n_apps, depth, counter, in_flight=()):
             'write_at': rng.randrange(len(ops) + 1) if ops else 0}
     if rng.random() < 0.2:
         call['bad'] = True       # the request's body is malformed: answered through the shared errors_map response
+    elif rng.random() < 0.2:
+        call['static'] = True    # served by a route without URL parameters
     return call
 
 
